@@ -18,6 +18,8 @@ let qerr_str = function
   | QConnApp c -> "app:" ^ string_of_n c
   | QTimeout -> "timeout"
   | QInternal -> "internal"
+  | QStreamUnknown -> "unknown"
+  | QConnUndefined -> "undefined"
 let kind_str = function
   | PK_Malformed -> "malformed" | PK_ForbiddenFrame -> "forbidden" | PK_InvalidFrameValue -> "value"
   | PK_Settings -> "settings" | PK_InvalidStreamId -> "streamid" | PK_InvalidPushId -> "pushid"
@@ -43,8 +45,10 @@ let parse_action a =
   | 'c' -> Arrive (Chunk (bytes_of_hex (rest ())))
   | 'F' -> Arrive Fin
   | 'R' -> Arrive (Abort (QTerminated (n_of_string (rest ()))))
-  | 'X' -> Arrive (Abort (QConnApp (n_of_string (rest ()))))
+  | 'X' -> if a = "XU" then Arrive (Abort QConnUndefined) else Arrive (Abort (QConnApp (n_of_string (rest ()))))
   | 'T' -> Arrive (Abort QTimeout)
+  | 'I' -> Arrive (Abort QInternal)
+  | 'K' -> Arrive (Abort QStreamUnknown)
   | 'n' -> CallNext
   | 'd' -> CallData
   | 'p' -> CallAuto
